@@ -7,7 +7,7 @@ CFG = dict(
                "unconditionally: number of samples, values, labels unchanged and a sample with frames never becomes empty; "
                "RemoveUninteresting = Prune with ^(..)$-anchored expressions, identity without drop_frames, error leaves the profile "
                "alone; any history of these operations on ONE profile object leaves what the composition of the rules leaves, validity "
-               "preserved step by step (history_meets_spec); RemoveUninteresting realises the rule stated with an abstract full-match predicate whenever the anchored expressions behave as that predicate (remove_uninteresting_full_match; re-checked per case against Go regexp); simplifyFunc only cuts a suffix; refuted twins for F14, F15 with concrete witnesses.",
+               "preserved step by step (history_meets_spec); RemoveUninteresting realises the rule stated with an abstract full-match predicate whenever the anchored expressions behave as that predicate (remove_uninteresting_full_match; re-checked per case against Go regexp); simplifyFunc only cuts a suffix; refuted twins for F14, F15 with concrete witnesses. End-to-end layer: the fetched profile = the rule with the FIRST source's expressions on the merged sources (fetch_meets_spec), prune_from is the last stage of applyFocus (prune_from_is_applied_last), tied to driver.PProf / interactive / web by correspondence.",
     level_note="Regexp engine abstract (match table shipped per case); simplifyFunc's fixed bracket expression modelled exactly and "
                "compared on 400+ names per run; the call site in fetch.go (fetchProfiles applies RemoveUninteresting exactly once, whatever the "
                "mappings' HasFunctions flags) is covered by the `fetch` op on the real fetchProfiles; addLegacyFrameInfo is not modelled.",
@@ -17,11 +17,12 @@ CFG = dict(
          "samples and repeated in a stack, unsymbolized locations, empty stacks, matches at root / leaf / middle; the real fetchProfiles on one in-memory source with mappings of mixed HasFunctions flags; "
          "drop/keep expressions from a grammar (alternations starting/ending with groups, one group, leading ^, trailing $, (?i)) probed with full and PARTIAL matches of their alternatives (anchor-probe), judged through a full-match oracle computed from the expression itself; histories of 2-3 operations on the SAME object (prune, prunefrom, removeun, driver fetchProfiles then generateRawReport "
          "-prune_from) judged against the composition of the frame rules (id-free frame-sample observable); distinct = sha256 of "
-         "the input term; non-trivial = the operation changed samples or locations",
+         "the input term; non-trivial = the operation changed samples or locations; END-TO-END (op e2e): several sources with present / absent / conflicting drop_frames and keep_frames, prune_from on names needing simplification, prune_from combined with focus / ignore / show_from / hide around the prune point, with and without relative_percentages, through driver.PProf, interactive sessions and the web /top handler",
     spec_what="frames removed by Prune / PruneFrom / RemoveUninteresting differ from the C11 statement (frame rules of S_Prune.v)",
     trusted_base=["Go regexp engine (its answers are shipped as a match table in every case)",
                   "export shims profile/zz_verif_c11.go (exposes simplifyFunc), internal/driver/zz_verif_c11.go (runs fetchProfiles on one in-memory source, no-op symbolizer, ObjTool that finds nothing)"],
-    assumptions=["profiles are valid in the sense of wf_profile (a fragment of Profile.CheckValid)",
+    assumptions=["end-to-end: sources with disjoint ids and names (merge = concatenation); -base/-diff_base/-normalize not covered",
+                 "profiles are valid in the sense of wf_profile (a fragment of Profile.CheckValid)",
                  "an unsymbolized location counts as one frame that matches nothing",
                  "the Go operations keep no state between calls (a history is modelled as the composition of the models; the history op checks it)",
                  "legacy_profile.addLegacyFrameInfo is not modelled; the fetch.go call site is checked with a single source (no merge)"],
